@@ -242,6 +242,11 @@ class BufferedLike(io.BytesIO):
     def read(self, n=-1):
         if n is not None and n < -1:
             raise ValueError("read length must be non-negative or -1")
+        if n is not None and n >= (1 << 63):
+            raise OverflowError("Python int too large to convert to C ssize_t")
+        if n is not None and n > (1 << 40):
+            # a buffered file allocates the requested size before it reads: a terabyte is a MemoryError on any machine
+            raise MemoryError()
         return io.BytesIO.read(self, n)
 
     def truncate(self, n=None):
